@@ -388,9 +388,31 @@ func C05(c *vh.Ctx) {
 	c.Bound("nodes", 3)
 	c.Bound("message_sequence_max", maxLen)
 	c.Bound("limits", limits)
-	c.Rule("all assignments of node templates (message / bindings / action nodes incl. failing, stuck and cyclic ones, message nodes whose guard throws, native and ECMAScript; specs that can fail also with an error node that listens and recovers) to 3 nodes x 3 start states x all message sequences up to the bound over 3 messages x limits x breakpoints (none, at n1, at n2) x every split into consecutive batches; invariants (a)-(g) of DESIGN 6/C05 on every Walked, plus equality with the reference walk. states = specs explored, transitions = strides executed; non-trivial = walk with more than one stride.")
+	c.Rule("all assignments of node templates (message / bindings / action nodes incl. failing, stuck and cyclic ones, message nodes whose guard throws, native and ECMAScript; specs that can fail also with an error node that listens and recovers) to 3 nodes x 3 start states x all message sequences up to the bound over 3 messages x limits x breakpoints (none, at n1, at n2) x every split into consecutive batches; for every n-th spec also one batch of 700 messages under limits 1023 / 1024 / 1025 / 4097; invariants (a)-(g) of DESIGN 6/C05 on every Walked, plus equality with the reference walk. states = specs explored, transitions = strides executed; non-trivial = walk with more than one stride.")
 	all := seqs(maxLen)
+	// long walks: one batch of several hundred messages (and cyclic specs) under limits around and far beyond a
+	// thousand steps - what holds for six strides has to hold for six thousand
+	longEvery := c.Pick(40, 12)
+	longLimits := []int{1023, 1024, 1025, 4097}
+	var longSeq []interface{}
+	for i := 0; i < 700; i++ {
+		longSeq = append(longSeq, all[1+i%3][0])
+	}
+	c.Bound("long_walk_messages", len(longSeq))
+	c.Bound("long_walk_limits", longLimits)
+	c.Bound("long_walk_every_nth_spec", longEvery)
+	nSpecs := 0
 	forEachWalkSpec(c, !c.Quick(), func(as *rstep.ASpec, spec *core.Spec) {
+		nSpecs++
+		if nSpecs%longEvery == 0 && !c.Expired() {
+			for _, st := range walkStarts {
+				for _, lim := range longLimits {
+					checkWalk(c, spec, walkCase{Spec: as, Node: st.Node, Bs: st.Bs, Msgs: longSeq, Limit: lim})
+					c.R.Traces++
+					c.Count("long_walks", 1)
+				}
+			}
+		}
 		for _, st := range walkStarts {
 			for _, sq := range all {
 				for _, lim := range limits {
